@@ -93,7 +93,7 @@ def run_property(prop, repo):
         _rules.run_dependencies(ctx, res, prop)
     except Exception as e:
         res.cannot(prop + ".internal", "-", "internal:deps:" + type(e).__name__, repr(e))
-    known = {k["key"] for k in report.load_known().get("findings", []) if k["property"] == prop}
+    known = {k["key"] if k["property"] == prop else "%s.D:%s" % (prop, k["key"]) for k in report.load_known().get("findings", [])}
     return [f_ for f_ in res.findings if f_.key not in known]
 
 
